@@ -158,6 +158,15 @@ def check_obligations(prop, scratch):
 # Harness
 
 def build_harness(scratch):
+    global HARNESS
+    if REPO != "/repo":
+        # developer mode (VERIF_REPO=<worktree>): build a copy of the harness against that tree
+        hs = os.path.join(scratch, "hsrc")
+        if not os.path.isdir(hs):
+            shutil.copytree(HARNESS, hs)
+            gm = open(os.path.join(hs, "go.mod")).read().replace("=> /repo", "=> " + REPO)
+            open(os.path.join(hs, "go.mod"), "w").write(gm)
+        HARNESS = hs
     shutil.copyfile(os.path.join(REPO, "go.sum"), os.path.join(HARNESS, "go.sum"))
     out = os.path.join(scratch, "harness")
     lock = open(os.path.join(HARNESS, ".build.lock"), "w")
